@@ -1,6 +1,196 @@
 import Fabio.Driver.Proto
-namespace Fabio.Driver.C06
-open Lean Fabio.Driver
+import Fabio.Model.C06
+/-!
+Driver handlers for C06.
 
-def streams : List (String × Handler) := []
+Sequential streams (`c06.globcache`, `c06.rr`, `c06.redirect`): the model programs are run under the
+sequential schedule and compared exactly with the implementation, call by call; both the repaired and the
+"current" micro-step programs are run and must agree with each other sequentially (tag `model-forms-differ`).
+
+Race streams (`c06.*-race`): the implementation's counts are judged by the specification predicates of the
+model (`targetShare` — the exact share the theorem `rr_target_share_any_schedule` promises for EVERY
+schedule —, the cache bound of `globcache_inv`, no foreign Location, no panic, no race report).
+-/
+namespace Fabio.Driver.C06
+open Lean Fabio.Driver Fabio.Model.C06
+
+def panicJson : Json := Json.mkObj [("panic", true)]
+
+def canonImpl (j : Json) : Json :=
+  match j.getObjVal? "panic" with
+  | .ok _ => panicJson
+  | .error _ => j
+
+def natsJson (xs : List Nat) : Json := Json.arr (xs.map (fun (n : Nat) => toJson n)).toArray
+def sortNats (xs : List Nat) : List Nat := (xs.toArray.qsort (· < ·)).toList
+def getNatD (j : Json) (k : String) (d : Nat := 0) : Nat := (j.getObjValAs? Nat k).toOption.getD d
+def getBoolD (j : Json) (k : String) (d : Bool := false) : Bool := (j.getObjValAs? Bool k).toOption.getD d
+def getNats (j : Json) (k : String) : List Nat := ((j.getObjValAs? (Array Nat) k).toOption.getD #[]).toList
+
+/-- run one thread to completion on its own -/
+def runSeq (steps : List St) (s : State) (l : Local) : State × Local :=
+  let r := Fabio.Model.C06.run (List.replicate steps.length 0) [{ steps := steps, loc := l }] s
+  (r.1, (r.2.head?.map (·.loc)).getD l)
+
+/-! ### c06.globcache -/
+
+structure GcStep where
+  ok : Bool
+  keys : List Nat
+  l : List Nat
+  h : Nat
+  n : Nat
+deriving BEq
+
+def GcStep.toJson (x : GcStep) : Json :=
+  Json.mkObj [("ok", x.ok), ("keys", natsJson x.keys), ("l", natsJson x.l), ("h", x.h), ("n", x.n)]
+
+def gcStepOf (j : Json) : GcStep :=
+  { ok := getBoolD j "ok", keys := getNats j "keys", l := getNats j "l", h := getNatD j "h", n := getNatD j "n" }
+
+/-- fold the ops through one form of `Get`; `none` = the goroutine panicked -/
+def gcModel (get : Nat → List St) (size : Nat) (ops : List Nat) : Option (List GcStep) :=
+  let rec go (s : State) (l : Local) (acc : List GcStep) : List Nat → Option (List GcStep)
+    | [] => some acc.reverse
+    | p :: ps =>
+      let (s', l') := runSeq (get p) s l
+      if l'.dead then none else
+      let ok := match l'.gets.getLast? with
+        | some (_, .ok _) => true
+        | _ => false
+      go s' l' ({ ok := ok, keys := sortNats (keys s'.cache.m), l := s'.cache.l, h := s'.cache.h, n := s'.cache.n } :: acc) ps
+  go { cache := Cache.new size } {} [] ops
+
+def gcH : Handler := fun inp impl => do
+  let size ← inp.getObjValAs? Nat "size"
+  let univ ← inp.getObjValAs? (Array String) "universe"
+  let ops0 ← inp.getObjValAs? (Array Nat) "ops"
+  let ops := ops0.toList.map (· + 1)          -- pattern ids are universe index + 1 (0 = unused ring slot)
+  let ci := canonImpl impl
+  let compiles := ((impl.getObjValAs? (Array Bool) "compiles").toOption.getD (univ.map fun _ => true))
+  let compile : Nat → Option Nat := fun p => if compiles.getD (p - 1) false then some p else none
+  let mRep := gcModel (getRepaired compile) size ops
+  let mCur := gcModel (getCurrent compile) size ops
+  let formsAgree := mRep == mCur
+  let model := match mRep with
+    | none => panicJson
+    | some steps => Json.mkObj [("compiles", toJson compiles), ("steps", Json.arr (steps.map GcStep.toJson).toArray)]
+  let implSteps := ((ci.getObjVal? "steps").toOption.bind (fun j => j.getArr?.toOption)).map (fun a => a.toList.map gcStepOf)
+  let agree := formsAgree && (match mRep, implSteps with
+    | none, _ => ci == panicJson
+    | some ms, some is => ms == is
+    | _, _ => false)
+  -- the property on the implementation's own output
+  let spec := size == 0 || (match implSteps with
+    | none => false
+    | some is => is.length == ops.length &&
+        (is.zip ops).all (fun (st, p) => cacheOK size st.keys st.l st.h st.n && st.ok == compiles.getD (p - 1) false))
+  let distinct := (ops.eraseDups).length
+  let evicts := distinct > size
+  let bad := ops.any (fun p => !(compiles.getD (p - 1) false))
+  let tag := if !formsAgree then "model-forms-differ" else if size == 0 then "size0"
+    else if bad then (if evicts then "evict+compile-error" else "compile-error") else if evicts then "evict" else "fill"
+  return ({ model := model, agree := agree, spec := spec, nontrivial := decide (size ≥ 1) && evicts, tag := tag } : Verdict).toJson
+
+/-! ### c06.rr -/
+
+def rrH : Handler := fun inp impl => do
+  let start ← inp.getObjValAs? Nat "start"
+  let picks ← inp.getObjValAs? Nat "picks"
+  let weights ← inp.getObjValAs? (Array Nat) "weights"
+  let ci := canonImpl impl
+  let ring := getNats ci "ring"
+  let N := ring.length
+  let s0 : State := { total := start }
+  let (sR, lR) := runSeq (rrThreadRepaired N picks).steps s0 {}
+  let (sC, lC) := runSeq (rrThreadCurrent N picks).steps s0 {}
+  let formsAgree := sR.total == sC.total && lR.picks == lC.picks && lR.dead == lC.dead
+  let seq := lR.picks.map (fun i => ring[i]?.getD 0)
+  let model := if lR.dead then panicJson else
+    Json.mkObj [("ring", natsJson ring), ("seq", natsJson seq), ("cursor", sR.total)]
+  let agree := formsAgree && model == ci
+  let implSeq := getNats ci "seq"
+  let spec := ci != panicJson && getNatD ci "cursor" == start + picks && implSeq.length == picks &&
+    (List.range weights.size).all (fun t => implSeq.count t == targetShareFast ring start picks t)
+  let tag := if !formsAgree then "model-forms-differ" else
+    if N == weights.size then (if picks ≥ N then "plain-cycles" else "plain-partial")
+    else (if picks ≥ N then "weighted-cycles" else "weighted-partial")
+  return ({ model := model, agree := agree, spec := spec, nontrivial := decide (picks ≥ 2), tag := tag } : Verdict).toJson
+
+/-! ### c06.redirect -/
+
+def rdPrefix (form : Nat) : String := if form == 2 then "https://to.example/new" else "https://to.example"
+
+def rdH : Handler := fun inp impl => do
+  let form ← inp.getObjValAs? Nat "form"
+  let paths ← inp.getObjValAs? (Array String) "paths"
+  let query := ((inp.getObjValAs? (Array String) "query").toOption.getD #[])
+  let ci := canonImpl impl
+  let n := paths.size
+  let locOf (q : Nat) : String :=
+    let qs := query.getD q ""
+    rdPrefix form ++ paths.getD q "" ++ (if qs == "" then "" else "?" ++ qs)
+  -- requests are identified by their index; the URL builder is the identity on identities
+  let (_, lR) := runSeq (rdThreadRepaired id (List.range n)).steps {} {}
+  let (_, lC) := runSeq (rdThreadCurrent id (List.range n)).steps {} {}
+  let formsAgree := lR.locs == lC.locs
+  let model := Json.arr (lR.locs.map (fun (_, loc) =>
+    Json.mkObj [("code", (301 : Nat)), ("location", Json.str (match loc with | some q => locOf q | none => ""))])).toArray
+  let agree := formsAgree && model == ci
+  let implArr := (ci.getArr?.toOption.getD #[]).toList
+  let spec := implArr.length == n && (implArr.zip (List.range n)).all (fun (j, q) =>
+    (j.getObjValAs? String "location").toOption == some (locOf q) && getNatD j "code" == 301)
+  let withQuery := query.toList.any (· != "")
+  let tag := if !formsAgree then "model-forms-differ" else s!"form{form}" ++ (if withQuery then "+query" else "")
+  return ({ model := model, agree := agree, spec := spec, nontrivial := decide (n ≥ 2), tag := tag } : Verdict).toJson
+
+/-! ### race streams -/
+
+structure RouteObs where
+  k : Nat
+  cursor : Nat
+  ring : List Nat
+  counts : List Nat
+
+def routeObsOf (j : Json) : RouteObs :=
+  { k := getNatD j "k", cursor := getNatD j "cursor", ring := getNats j "ring", counts := getNats j "counts" }
+
+/-- exact share of every target after `k` lookups from cursor 0 (`rr_target_share_any_schedule`; evaluated
+cycle-wise, equal to `targetShare` by `targetShareFast_eq`) -/
+def expectedCounts (r : RouteObs) : List Nat :=
+  (List.range r.counts.length).map (fun t => targetShareFast r.ring 0 r.k t)
+
+def stressH : Handler := fun _inp impl => do
+  if (impl.getObjVal? "harness_error").toOption.isSome then
+    return ({ model := Json.null, agree := false, spec := true, nontrivial := false, tag := "harness-error" } : Verdict).toJson
+  let crashed := getBoolD impl "crashed" true
+  let race := getBoolD impl "race" true
+  let raceEnabled := getBoolD impl "race_enabled"
+  let panics := getNatD impl "panics"
+  let mismatch := getNatD impl "mismatch"
+  let lookups := getNatD impl "lookups"
+  let routes := ((impl.getObjVal? "routes").toOption.bind (fun j => j.getArr?.toOption)).getD #[] |>.toList |>.map routeObsOf
+  -- single-target routes never call the picker: their cursor stays 0
+  let shareOK := routes.all (fun r =>
+    r.counts.sum == r.k && (if r.counts.length ≤ 1 then r.cursor == 0 else r.cursor == r.k) &&
+    r.counts == expectedCounts r)
+  let cache := (impl.getObjVal? "cache").toOption.getD Json.null
+  let cacheOK := getNatD cache "entries" ≤ getNatD cache "size" && getNatD cache "n" ≤ getNatD cache "size" &&
+    getNatD cache "h" < max (getNatD cache "n") 1 && getNatD cache "l" == getNatD cache "size"
+  let accounted := (routes.map (·.k)).sum
+  let model := Json.mkObj [("crashed", false), ("race", false), ("panics", (0 : Nat)), ("mismatch", (0 : Nat)),
+    ("routes", Json.arr (routes.map (fun r => natsJson (expectedCounts r))).toArray), ("cache_ok", true)]
+  let agree := !crashed && panics == 0 && mismatch == 0 && shareOK && cacheOK
+  let spec := agree && !race
+  let tag := if crashed then "crash" else if panics > 0 then "panic" else if mismatch > 0 then
+      (if routes.isEmpty then "location-crosstalk" else "wrong-target")
+    else if !shareOK then "lost-share" else if !cacheOK then "cache-overflow" else if race then "data-race"
+    else if !raceEnabled then "no-race-detector" else if routes.isEmpty then "ok-redirect" else "ok"
+  return ({ model := model, agree := agree, spec := spec,
+            nontrivial := raceEnabled && decide (lookups ≥ 1000) && (routes.isEmpty || decide (accounted ≥ 1000)),
+            tag := tag } : Verdict).toJson
+
+def streams : List (String × Handler) :=
+  [("c06.globcache", gcH), ("c06.rr", rrH), ("c06.redirect", rdH),
+   ("c06.rr-race", stressH), ("c06.glob-race", stressH), ("c06.redirect-race", stressH), ("c06.mixed-race", stressH)]
 end Fabio.Driver.C06
